@@ -6,6 +6,7 @@ mod c01;
 mod c02;
 mod c04;
 mod c05;
+mod c08;
 mod c10;
 mod c12;
 mod c20;
@@ -63,6 +64,8 @@ fn main() {
     ("C04", Some(d)) => c04::replay(&d),
     ("C05", None) => c05::run(&tier),
     ("C05", Some(d)) => c05::replay(&d),
+    ("C08", None) => c08::run(&tier),
+    ("C08", Some(d)) => c08::replay(&d),
     ("C10", None) => c10::run(&tier),
     ("C10", Some(d)) => c10::replay(&d),
     ("C12", None) => c12::run(&tier),
